@@ -321,3 +321,120 @@ def plug_enc(fn, v):
 EXT_PY = {"logical32.ok": lambda v: plug_enc("r.logical32", v) is not None, "logical32.val": lambda v: plug_enc("r.logical32", v) or 0,
           "logical64.ok": lambda v: plug_enc("r.logical64", v) is not None, "logical64.val": lambda v: plug_enc("r.logical64", v) or 0,
           "float.ok": lambda v: plug_enc("r.float", v) is not None, "float.val": lambda v: plug_enc("r.float", v) or 0}
+
+
+# =================================================================================================== riscv
+def sweep_rv(run, gen, focus, thorough):
+    """riscv immediates: literal spelling (plugin) vs run-time spelling (real macro) vs the translated expression (which the generated
+    theorems equate with the literal-path model RvEnc for every value of the operand type)."""
+    rng = SplitMix(run.seed ^ 0x5EED)
+    fs = gen["forms"]
+    obs = [o for o in gen["obligations"] if "skip" not in o]
+    stats = {"obligations": len(gen["obligations"]), "translated": len(obs), "literal": 0, "runtime": 0, "literal_accepted": 0, "runtime_accepted": 0, "pairs_compared": 0}
+    TY = {"u32": (32, False), "i32": (32, True), "i64": (64, True)}
+    plan = []
+    for ob in obs:
+        ob2 = dict(ob, ty=ob["ty"] if ob["ty"] != "i64" else "i32")
+        vals = set(slot_values(dict(ob, ty="i32" if ob["ty"] != "u32" else "u32"), rng, 40 if thorough else 8))
+        if ob["ty"] == "i64":
+            vals |= {(1 << k) + d for k in range(33, 64) for d in (-1, 0)} | {-(1 << k) + d for k in range(33, 64) for d in (0, 1)} | {(1 << 63) - 1, -(1 << 63), 1 << 63}
+        for v in sorted(vals):
+            plan.append((ob, v))
+    lreqs = ["cl " + ob["header"] + " " + fs[ob["form"]].render(dict(ob["vals"]), runtime={ob["idx"]: str(v)}) for (ob, v) in plan]
+    lans = plug(lreqs)
+    cases = [dict(body=ob["header"] + " " + ob["line"], vars=[("v", ob["ty"])]) for ob in obs]
+    ok, log = dyn.build(focus + "V", cases)
+    if not ok:
+        run.violation("broken-correspondence", {"kind": "harness-build", "harness": "dyn-riscv"}, "the generated crate with riscv run-time immediates does not build against the working tree",
+                      {"log": log[-3000:]}, found_input=False)
+        return stats
+    case_of = {ob["n"]: i for i, ob in enumerate(obs)}
+
+    def lit_words(a):
+        if not a.startswith("ok "):
+            return None
+        b = b""
+        for st in json.loads(a[3:]):
+            k, _, v = st.partition("|")
+            if k in ("c2", "c4"):
+                b += int(v, 16).to_bytes(int(k[1]), "little")
+            elif k[:2] == "eu":
+                return "dynamic"
+        return b
+
+    dreqs, dplan = [], []
+    for (ob, v), la in zip(plan, lans):
+        w, sg = TY[ob["ty"]]
+        if (-(1 << (w - 1)) <= v < (1 << (w - 1))) if sg else (0 <= v < (1 << w)):
+            dreqs.append((case_of[ob["n"]], [v]))
+            dplan.append((ob, v, la))
+    dres = dyn.run(focus + "V", dreqs)
+    rt = {}
+    for (ob, v, la), (idx, vals), (st, b) in zip(dplan, dreqs, dres):
+        stats["runtime"] += 1
+        rt[(ob["n"], v)] = b if st == "ok" else None
+        if st == "ok":
+            stats["runtime_accepted"] += 1
+        desc = f"dynasm!(ops {cases[idx]['body']}) with v = {v}"
+        payload = {"stream": "dyn", "case": cases[idx], "values": vals}
+        # translator validation
+        env = {"v": v & ((1 << TY[ob["ty"]][0]) - 1)}
+        irb = b""
+        panic = False
+        for wd in ob["words"]:
+            if wd["ir"]:
+                p, val, _ = wd["ir"][True]
+                if rustexpr.ev(p, env):
+                    panic = True
+                    break
+                irb += rustexpr.ev(val, env).to_bytes(wd["w"] // 8, "little")
+            else:
+                irb += wd["K"].to_bytes(wd["w"] // 8, "little")
+        irr = None if panic else irb
+        if irr != rt[(ob["n"], v)]:
+            run.violation("broken-correspondence", {"kind": "translation-differs", "obligation": ob["lean_cmds"]},
+                          f"{desc}: rustc's result {b.hex() if st == 'ok' else 'panic'} differs from the translated expression {irr.hex() if irr is not None else 'panic'}", payload, found_input=False)
+        lw = lit_words(la)
+        if lw == "dynamic":
+            continue
+        stats["pairs_compared"] += 1
+        if lw != rt[(ob["n"], v)] and focus == "C03":
+            kind = "runtime-accepts-rejected-literal" if lw is None else "runtime-rejects-accepted-literal" if rt[(ob["n"], v)] is None else "runtime-differs-from-literal"
+            run.violation("failing-input", {"kind": kind, "mnemonic": ob["mnemonic"], "commands": ob["lean_cmds"]},
+                          f"{desc}: run-time spelling gives {b.hex() if st == 'ok' else 'panic (' + b[:60] + ')'}, the literal spelling {lw.hex() if lw is not None else 'is rejected'}", payload)
+    lit = {}
+    for (ob, v), la, req in zip(plan, lans, lreqs):
+        stats["literal"] += 1
+        lw = lit_words(la)
+        if la.startswith("panic"):
+            run.violation("failing-input", {"kind": "compile-panic", "obligation": ob["line"]}, f"`{req[3:]}` panics the compiler: {la[:160]}", {"stream": "plug", "input": [req], "impl": [la]})
+            continue
+        if lw == "dynamic":
+            continue
+        lit[(ob["n"], v)] = lw
+        if lw is not None:
+            stats["literal_accepted"] += 1
+        if focus == "C04":
+            d = in_doc(ob["constraint"], v)
+            if d is True and lw is None:
+                run.violation("failing-input", {"kind": "documented-value-rejected", "mnemonic": ob["mnemonic"], "commands": ob["lean_cmds"]},
+                              f"`{req[3:]}`: the operand {v} lies in the documented set of the form but is rejected ({la[:80]})", {"stream": "plug", "input": [req]})
+    if focus == "C04":
+        partial = lambda ob: encgen.name_of(ob["cmd"]) == "Offset" and ob["cmd"][1] in ("HI20", "LO12", "LO12S")     # noqa: E731
+        for (src, table) in (("literal", lit), ("run-time", rt)):
+            by = {}
+            for (n, v), w in table.items():
+                if w is not None:
+                    by.setdefault(n, {}).setdefault(w, []).append(v)
+            obn = {ob["n"]: ob for ob in obs}
+            for n, ws in by.items():
+                if partial(obn[n]):
+                    continue
+                for w, vs in ws.items():
+                    if len(vs) > 1:
+                        ob = obn[n]
+                        run.violation("failing-input", {"kind": "operand-wrapped", "mnemonic": ob["mnemonic"], "commands": ob["lean_cmds"], "spelling": src},
+                                      f"`{ob['header']} {ob['line']}` ({src} spelling): v = {vs[0]} and v = {vs[1]} are both accepted and assemble to the same bytes {w.hex()}: one was masked into the field",
+                                      {"stream": "plug", "input": ["cl " + ob["header"] + " " + fs[ob["form"]].render(dict(ob["vals"]), runtime={ob["idx"]: str(x)}) for x in vs[:2]]})
+                        break
+    return stats
